@@ -104,6 +104,55 @@ def run(tier):
                                             filetext=T(join_words(r_, g.spell_line(cfg, [u])) + "\n"), envstr=[], prog=T("prog"),
                                             tag={"k": "override"}))
         blocks.append((cfg, acts))
+    # ---- T3: argument-file argument (addArgumentFile): files that include files, values before and after the include,
+    #          overridden by a later command line value; missing files
+    for _ in range(60 if tier == "quick" else 2000):
+        cfg = g.cfg(constraints=False, allow_pos=False, kinds=["flag", "int", "str", "dbl", "vecint", "vecstr", "listint"])
+        for a in cfg["args"]:
+            a["mand"] = False
+            if arggen.is_cont(a["kind"]):
+                a["card"] = {"t": "dflt", "a": 0, "b": 0}
+                a["multi"] = False
+        fa = arggen.new_arg("flag"); fa["kind"] = "argfile"; fa["vm"] = "req"; fa["init"] = False
+        fa["s"] = next(ord(ch) for ch in "FPAY" if ord(ch) not in {a["s"] for a in cfg["args"]}); fa["l"] = T("argfile")
+        cfg["args"].append(fa)
+        fkey = r_.choice(["-" + chr(fa["s"]), "--argfile"])
+        acts = []
+        for _ in range(nlines):
+            line = gen_valid(g, cfg)
+            if not line:
+                continue
+            # cut the uses into: argv before | outer file before include | inner file | outer file after include | argv after
+            cuts = sorted(r_.randint(0, len(line)) for _ in range(4))
+            parts = [line[:cuts[0]], line[cuts[0]:cuts[1]], line[cuts[1]:cuts[2]], line[cuts[2]:cuts[3]], line[cuts[3]:]]
+
+            def text_of(uses):
+                t, k = "", 0
+                while k < len(uses):
+                    m = r_.randint(1, len(uses) - k)
+                    t += join_words(r_, g.spell_line(cfg, uses[k:k + m])) + "\n"
+                    k += m
+                return t
+            nested = r_.random() < 0.7
+            inner = text_of(parts[2])
+            outer = text_of(parts[1]) + ((fkey + " inner.pa\n") if nested else inner) + text_of(parts[3])
+            if r_.random() < 0.3 and outer.endswith("\n"):
+                outer = outer[:-1]
+            files = [{"name": T("outer.pa"), "text": T(outer)}, {"name": T("inner.pa"), "text": T(inner)}]
+            # override: a scalar given in a file is given again (other value) at the end of the command line
+            extra = []
+            sc = [u for part in parts[1:4] for u in part if cfg["args"][u[0] - 1]["kind"] in ("int", "str", "dbl") and u[1]
+                  and cfg["args"][u[0] - 1]["card"]["t"] == "dflt"]
+            if sc and r_.random() < 0.7:
+                u = r_.choice(sc)
+                v2 = g.good_value(cfg["args"][u[0] - 1])
+                if v2 is not None:
+                    extra = [[u[0], [v2]]]
+            argv = g.spell_line(cfg, parts[0]) + [fkey, "outer.pa"] + g.spell_line(cfg, parts[4] + extra)
+            acts.append(eval_action(argv, files=files, tag={"k": "argfile", "nested": nested, "override": bool(extra)}))
+            if r_.random() < 0.1:
+                acts.append(eval_action([fkey, "missing.pa"], files=files, tag={"k": "argfile-missing"}))
+        blocks.append((cfg, acts))
     script2 = os.path.join(c.wd, "random.ndjson")
     write_cases(script2, blocks)
     rej, tr = run_script(c, exe, script2, "T")
